@@ -147,12 +147,36 @@ func newSchedReadException(w *World, la *lockAnalysis) *schedReadException {
 		if g, ok := in.(*ssa.Go); ok {
 			if f := funcValue(g.Call.Value); f != nil && f.Parent() == e.spawner {
 				e.closure, goInstr = f, g
+			} else if f := g.Call.StaticCallee(); f != nil && w.InModule(f) && f.Blocks != nil {
+				e.closure, goInstr = f, g
 			}
 		}
 	})
 	if e.closure == nil {
 		e.reason = "start function spawns no goroutine closure"
 		return e
+	}
+	if e.closure.Parent() == nil {
+		// a method instead of a closure: it must have no other use than this go statement
+		uses := 0
+		for _, fn := range w.ModFuncs {
+			allInstrs(fn, func(in ssa.Instruction) {
+				if c := callCommonOf(in); c != nil && c.StaticCallee() == e.closure {
+					uses++
+				}
+				for _, op := range in.Operands(nil) {
+					if *op == ssa.Value(e.closure) {
+						if _, isCall := in.(ssa.CallInstruction); !isCall {
+							uses += 2 // used as a value
+						}
+					}
+				}
+			})
+		}
+		if uses != 1 {
+			e.reason = "the scheduling goroutine's function " + FuncName(e.closure) + " is also used elsewhere"
+			return e
+		}
 	}
 	// side condition: every store to PipelineJob.sched is (i) in a function called by the
 	// spawner at a site dominating the go statement, or (ii) in a function whose only
